@@ -131,11 +131,11 @@ def ensure_facts(fresh=False, log=sys.stderr):
         if not os.path.exists(ok):
             if os.path.isdir(d):
                 shutil.rmtree(d)
-            # keep at most 3 old fact sets
+            # keep at most 12 old fact sets
             root = os.path.join(CACHE, "facts")
             if os.path.isdir(root):
                 olds = sorted((os.path.getmtime(os.path.join(root, x)), x) for x in os.listdir(root))
-                for _, x in olds[:-3]:
+                for _, x in olds[:-12]:
                     shutil.rmtree(os.path.join(root, x), ignore_errors=True)
             tmp = d + ".tmp"
             if os.path.isdir(tmp):
